@@ -81,6 +81,7 @@ def run(ctx):
     r.rule("C06.self", "writes to the rule during analysis are recomputed caches, not read-modify-write")
     r.rule("C06.driver", "check_rules only analyses and counts; clear_violations resets exactly violations")
     r.rule("C06.determinism", "no nondeterminism source reachable from analysis")
+    r.rule("C06.memo", "nothing reachable from analysis is memoised with a mutable result (one object shared by every rule and every repetition)")
     r.explanation = (
         "All functions reachable from the analysis entry points of every live rule (static rule table x class hierarchy call graph) are "
         "scanned for effect sites; receivers are classified by a flow-insensitive may-alias analysis (origins FILE list, token INDEX, "
@@ -93,6 +94,17 @@ def run(ctx):
     funcs = [p.functions[k] for k in sorted(reach)]
     r.extra["analysis_entry_points"] = len(roots)
     r.extra["functions_reachable_from_analysis"] = len(funcs)
+    from ..effects import memoised_functions
+
+    memo = memoised_functions(p)
+    r.extra["memoised_functions"] = [fi.key for fi, _, _ in memo]
+    hit = False
+    for fi, deco, mutable in memo:
+        if fi.key in reach and mutable:
+            hit = True
+            r.fail("C06.memo", fi.key, "%s is memoised (@%s) and returns an object built per call: every rule and every repetition of the analysis is handed the same object, so whatever one of them adds to it is seen by the next (results depend on which rules ran before)" % (fi.name, deco), fi.loc(), path=[x[0] for x in cg.path(reach, fi.key)][-7:])
+    if not hit:
+        r.ok("C06.memo", "analysis-reach", "%d memoised function(s) in vsg/, none reachable from analysis with a mutable result" % len(memo))
     summ = Summaries(p, cg)
     vf = p.cls("vsg.vhdlFile.vhdlFile:vhdlFile")
     rule_cls = p.cls("vsg.rule:Rule")
@@ -349,6 +361,11 @@ def _driver(r, p):
 
 
 VARIANTS = [
+    Variant("C06", "scope pairing of the consistent-case rules memoised (dicts shared by every rule)", "fire",
+            [("vsg/rules/consistent_case_utils.py", "def merge_block_indexes_into_list(lFirst, lSecond, lThird, sType):", "import functools\n\n\n@functools.lru_cache(maxsize=32)\ndef merge_block_indexes_into_list(lFirst, lSecond, lThird, sType):")],
+            rule="C06.memo", key="merge_block_indexes_into_list"),
+    Variant("C06", "twin: a memoised helper that returns text", "silent",
+            [("vsg/rules/alignment_utils.py", "def build_solution(sIndent):", "import functools\n\n\n@functools.lru_cache(maxsize=32)\ndef build_solution(sIndent):")]),
     Variant("C06", "analysis extends a rule attribute through a local alias", "fire",
             [("vsg/rules/blank_line_below_line_ending_with_token.py", "lAllowTokens = self.lAllowTokens + [token.pragma.pragma]", "lAllowTokens = self.lAllowTokens\n            lAllowTokens += [token.pragma.pragma]")], rule="C06.self"),
     Variant("C06", "case rule normalises token value during analysis", "fire",
